@@ -501,6 +501,7 @@ pub fn check(args: &CheckArgs) -> i32 {
     let replay_dir = format!("{}/replays", args.verif_dir);
     let mut group_summary = vec![];
     let mut minimised_groups = 0;
+    let mut reported_sigs: BTreeSet<String> = BTreeSet::new();
     for (sig, members) in &groups {
         let (index, raw_path) = &members[0];
         let final_path = format!("{replay_dir}/{}-{}-{}.json", args.property, args.seed, index);
@@ -554,6 +555,9 @@ pub fn check(args: &CheckArgs) -> i32 {
         let known = findings.findings.iter().find(|f| {
             f.status == "known" && f.property == args.property && f.signature == sig_final
         });
+        if !reported_sigs.insert(sig_final.clone()) {
+            continue; // another raw group minimised to the same violation
+        }
         match known {
             Some(f) => reported.known.push((sig_final.clone(), f.what.clone())),
             None => reported.violations.push((sig_final.clone(), final_path.clone())),
